@@ -19,6 +19,7 @@ import (
 	"io"
 	"math"
 	"math/rand"
+	"strings"
 
 	"github.com/EliCDavis/polyform/formats/stl"
 	"github.com/EliCDavis/polyform/modeling"
@@ -36,7 +37,7 @@ func Spec() *run.Spec {
 	return &run.Spec{
 		ID: "C07", Level: "exploration",
 		Rule: "mesh-rt: one case = one generated well-formed triangle mesh (n = 0…2000 triangles; index pattern unwelded/permuted/grid/fan/random-welded/unreferenced/repeated+degenerate; " +
-			"normals none/unit/non-unit/axis; 7 value classes; optional extra attributes and materials) written with stl.WriteMesh and checked by an independent record parser, " +
+			"normals none/unit/non-unit/axis/scaled (magnitudes 1e-30…1e30 per mesh, per triangle or per vertex); 7 value classes; optional extra attributes and materials) written with stl.WriteMesh and checked by an independent record parser, " +
 			"stl.ReadMesh, stl.Read and stl.Write; non-trivial iff n ≥ 2 and some vertex is shared by ≥ 2 corners. " +
 			"bytes-rt: one case = one well-formed STL byte string from the reference encoder (random header, n = 0…300 (thorough …3000) records, normals zero/geometric/random-unit/non-unit/mixed, " +
 			"random attribute words, degenerate facets); non-trivial iff n ≥ 2 and (some attribute word ≠ 0 or some normal ≠ 0). " +
@@ -51,7 +52,8 @@ func Spec() *run.Spec {
 			"Distinctness = phase / size bucket / index pattern / normal kind / value class / extras.",
 		Assumptions: []string{
 			"positions are finite and |x| < 1e30 so that float32 rounding never overflows (NaN/Inf are out of reach)",
-			"a facet whose corner-normal mean is shorter than 1e-3 of the longest corner normal has no defined direction: its normal is not compared (counted in normals_skipped_undefined)",
+			"a facet whose corner-normal mean is shorter than 1e-6 of the longest corner normal (|mean| / max|corner| < 1e-6, a RELATIVE rule: the magnitudes themselves do not matter) has no defined direction: its normal is not compared (counted in normals_skipped_undefined)",
+			"normal kind scaled: unit directions multiplied per mesh / per triangle / per vertex by 10^e, e uniform in [-30, 30] (one draw in seven: [-200, 200]); the reference divides by the largest component before summing and squaring, so it is exact at every magnitude; a verdict is given when |mean| ∈ [1e-140, 1e140] and max|corner| ≤ 1e140, outside (where x² over- or underflows in float64) what the writer stored is only counted (extreme_normal_written_*)",
 			"a facet with edge-angle sine ≤ 1e-6 has no defined geometric normal: where the geometric normal is the expected value it is not compared (counted in normals_skipped_degenerate)",
 			"stl.ReadMesh defines: as soon as ONE record of a file stores a non-zero normal the mesh reports a Normal attribute, and a record whose stored normal is zero gets the geometric normal (v2−v1)×(v3−v1) normalised — wherever that record lies relative to the records with normals; this is what the monitor demands of the mesh read back (1e-6), while a record re-written from such a mesh may hold zero or the geometric normal",
 			"a file written from a mesh without normals may store either the zero vector or the geometric normal; stl.ReadMesh may or may not report a Normal attribute for it (if it does it must be the geometric normal)",
@@ -81,6 +83,14 @@ func Spec() *run.Spec {
 			"reader_kinds":                                           9,
 			"writer_kinds":                                           4,
 			"large_sink_kinds":                                       6,
+			"normal_mean_magnitude:1e-30..1e-20":                     1000,
+			"normal_mean_magnitude:1e-20..1e-10":                     1000,
+			"normal_mean_magnitude:1e-10..1e-5":                      500,
+			"normal_mean_magnitude:1e-5..1":                          500,
+			"normal_mean_magnitude:1..1e5":                           500,
+			"normal_mean_magnitude:1e5..1e10":                        500,
+			"normal_mean_magnitude:1e10..1e20":                       1000,
+			"normal_mean_magnitude:1e20..1e30":                       1000,
 			"large_sizes":                                            9,
 			"large_records_compared":                                 150000,
 		},
@@ -111,6 +121,39 @@ func Spec() *run.Spec {
 			}, Run: faultSequences, Batch: 100, CPUBudgetS: 20},
 		},
 	}
+}
+
+// meanDirection is the reference for "normalised mean of the corner normals": the three
+// normals are first divided by their largest component magnitude, so that neither the
+// sum nor the squares leave the float64 range whatever the magnitudes are. ratio =
+// |mean| / max|corner| (how much of the corners survives the averaging), meanMag = |mean|,
+// longest = max|corner| (both in the original scale, computed without squaring overflow).
+func meanDirection(a, b, c v3) (u v3, ratio, meanMag, longest float64, ok bool) {
+	m := math.Max(a.maxAbs(), math.Max(b.maxAbs(), c.maxAbs()))
+	if m == 0 || math.IsInf(m, 0) || m != m {
+		return v3{}, 0, 0, 0, false
+	}
+	as, bs, cs := a.scale(1/m), b.scale(1/m), c.scale(1/m)
+	mean := as.add(bs).add(cs).scale(1.0 / 3)
+	lmax := math.Max(as.len(), math.Max(bs.len(), cs.len()))
+	ml := mean.len()
+	if ml == 0 {
+		return v3{}, 0, 0, lmax * m, false
+	}
+	u, ok = mean.unit()
+	return u, ml / lmax, ml * m, lmax * m, ok
+}
+
+// magnitudeBand names the decade band of a magnitude.
+func magnitudeBand(x float64) string {
+	bounds := []float64{1e-140, 1e-30, 1e-20, 1e-10, 1e-5, 1, 1e5, 1e10, 1e20, 1e30, 1e140}
+	names := []string{"<1e-140", "1e-140..1e-30", "1e-30..1e-20", "1e-20..1e-10", "1e-10..1e-5", "1e-5..1", "1..1e5", "1e5..1e10", "1e10..1e20", "1e20..1e30", "1e30..1e140", ">1e140"}
+	for i, b := range bounds {
+		if x < b {
+			return names[i]
+		}
+	}
+	return names[len(names)-1]
 }
 
 // --- generators ------------------------------------------------------------
@@ -164,15 +207,16 @@ func triCount(r *rand.Rand, tier string) int {
 }
 
 type meshModel struct {
-	n       int
-	pattern string
-	class   string
-	normals string
-	extras  string
-	idx     []int
-	pos     []v3
-	nor     []v3 // nil when the mesh stores no normals
-	shared  bool
+	n           int
+	pattern     string
+	class       string
+	normals     string
+	extras      string
+	idx         []int
+	pos         []v3
+	nor         []v3 // nil when the mesh stores no normals
+	normalScale string
+	shared      bool
 }
 
 func (mm *meshModel) sig() string {
@@ -202,7 +246,16 @@ func bucket(n int) int {
 }
 
 var patterns = []string{"unwelded", "unwelded-perm", "grid", "fan", "welded-random", "unreferenced", "repeated"}
-var normalKinds = []string{"none", "none", "unit", "unit", "nonunit", "axis", "f32unit"}
+var normalKinds = []string{"none", "none", "unit", "unit", "nonunit", "axis", "f32unit", "scaled", "scaled"}
+
+// decade draws the power of ten of a normal's magnitude: log-uniform over 1e-30 … 1e30,
+// in one draw out of seven over 1e-200 … 1e200 (beyond what squares of float64 hold).
+func decade(r *rand.Rand) float64 {
+	if r.Intn(7) == 0 {
+		return math.Pow(10, r.Float64()*400-200)
+	}
+	return math.Pow(10, r.Float64()*60-30)
+}
 
 func toVec3(a []v3) []vector3.Float64 {
 	out := make([]vector3.Float64, len(a))
@@ -323,6 +376,8 @@ func genMesh(r *rand.Rand, tier string, forceN int) (modeling.Mesh, *meshModel) 
 			}
 			u, _ := d.unit()
 			switch mm.normals {
+			case "scaled":
+				mm.nor[i] = u // scaled below, per mesh / per triangle / per vertex
 			case "unit":
 				mm.nor[i] = u
 			case "f32unit":
@@ -334,6 +389,35 @@ func genMesh(r *rand.Rand, tier string, forceN int) (modeling.Mesh, *meshModel) 
 				a[r.Intn(3)] = float64(1 - 2*r.Intn(2))
 				mm.nor[i] = a
 			}
+		}
+		if mm.normals == "scaled" {
+			// un-normalised normals (area weighted, accumulated, in other units …): magnitude as a
+			// workload dimension
+			mode := []string{"per-mesh", "per-triangle", "per-vertex"}[r.Intn(3)]
+			if mode == "per-triangle" && mm.pattern != "unwelded" && mm.pattern != "unwelded-perm" {
+				mode = "per-vertex" // a shared vertex cannot carry one scale per triangle
+			}
+			mm.normalScale = mode
+			switch mode {
+			case "per-mesh":
+				s := decade(r)
+				for i := range mm.nor {
+					mm.nor[i] = mm.nor[i].scale(s)
+				}
+			case "per-triangle":
+				for t := 0; t < mm.n; t++ {
+					s := decade(r)
+					for k := 0; k < 3; k++ {
+						v := mm.idx[3*t+k]
+						mm.nor[v] = mm.nor[v].scale(s)
+					}
+				}
+			default:
+				for i := range mm.nor {
+					mm.nor[i] = mm.nor[i].scale(decade(r))
+				}
+			}
+			mm.normals = "scaled:" + mode
 		}
 		m = m.SetFloat3Attribute(modeling.NormalAttribute, toVec3(mm.nor))
 	}
@@ -659,12 +743,29 @@ func meshRTinner(c *run.Ctx, forceN int) (res run.Result, m modeling.Mesh, b []b
 		}
 		if mm.nor != nil {
 			a, bb, cc := mm.nor[mm.idx[3*t]], mm.nor[mm.idx[3*t+1]], mm.nor[mm.idx[3*t+2]]
-			mean := a.add(bb).add(cc).scale(1.0 / 3)
-			longest := math.Max(a.len(), math.Max(bb.len(), cc.len()))
-			u, ok := mean.unit()
-			if !ok || mean.len() < 1e-3*longest {
+			u, ratio, meanMag, longest, ok := meanDirection(a, bb, cc)
+			if !ok || ratio < 1e-6 {
 				res.Count("normals_skipped_undefined", 1)
 				continue
+			}
+			band := magnitudeBand(meanMag)
+			if meanMag < 1e-140 || meanMag > 1e140 || longest > 1e140 {
+				// beyond what the squares of float64 hold for certain: measured, not judged
+				res.Count("normal_mean_magnitude_outside_verdict_band:"+band, 1)
+				switch {
+				case !rec.Normal.finite():
+					res.Count("extreme_normal_written_as_nan_or_inf", 1)
+				case rec.Normal.zero():
+					res.Count("extreme_normal_written_as_zero", 1)
+				case near(rec.Normal.f64(), u, normalTol):
+					res.Count("extreme_normal_written_correctly", 1)
+				default:
+					res.Count("extreme_normal_written_otherwise", 1)
+				}
+				continue
+			}
+			if strings.HasPrefix(mm.normals, "scaled") {
+				res.Count("normal_mean_magnitude:"+band, 1)
 			}
 			want[t] = exp{u, 1}
 			res.Count("stored_normals_compared", 1)
